@@ -213,3 +213,29 @@ Definition check_scase (x : (list Z * list (Z * bool)) * (list Z * list Z)) : bo
   let st := fst (fst x) in let nodes := snd (fst x) in
   list_eqb Z.eqb (stages_finished st nodes) (fst (snd x)) &&
   subset_b (stages_in_transit nodes) (snd (snd x)) && subset_b (snd (snd x)) (stages_in_transit nodes).
+
+(* ======================================================================================
+   A RESTART from a later stage (elaunch --startStage / restart of an instance): the FIRST call of
+   Controller.initialise is for the stage `start` > 0 (Controller._starting_index).  The stages before it were
+   completed by an earlier run: initialise marks every node (and placeholder) of a stage before the starting one as
+   done (comp_done) - it is never active again, nothing is ever launched or delivered for it - and it does so again
+   at every later initialise.  get_stages_finished walks ALL known stages (_stageStates holds the skipped ones too),
+   get_stages_in_transit all nodes: the skipped stages are finished stages, their weights are counted in full by
+   CheckStatus from the first report on.  start = 0 (an ordinary launch) marks nothing.
+   (A node ADDED to a skipped stage later would be active until the next initialise; this needs a restart in the middle
+   of a DoWhile that iterates again, which the code refuses - the next iteration cannot be instantiated.) *)
+Definition restart_nodes (start : Z) (nodes : list (Z * bool)) : list (Z * bool) :=
+  map (fun nb => (fst nb, snd nb && (start <=? fst nb))) nodes.
+Definition ctl_finished (start : Z) (stages : list Z) (nodes : list (Z * bool)) : list Z :=
+  stages_finished stages (restart_nodes start nodes).
+Definition ctl_in_transit (start : Z) (nodes : list (Z * bool)) : list Z :=
+  stages_in_transit (restart_nodes start nodes).
+(* the progress vector of a report when the first k stages were skipped: D (complete) for each of them *)
+Definition restart_prog (D : Z) (k : nat) (prog : list Z) : list Z := (repeat D k ++ prog)%list.
+
+(* correspondence: (((starting stage, known stages), nodes as the DRIVER knows them: active = no termination was
+   delivered), (finished, in transit) reported by the real Controller) *)
+Definition check_rcase (x : ((Z * list Z) * list (Z * bool)) * (list Z * list Z)) : bool :=
+  let start := fst (fst (fst x)) in let st := snd (fst (fst x)) in let nodes := snd (fst x) in
+  list_eqb Z.eqb (ctl_finished start st nodes) (fst (snd x)) &&
+  subset_b (ctl_in_transit start nodes) (snd (snd x)) && subset_b (snd (snd x)) (ctl_in_transit start nodes).
